@@ -19,7 +19,8 @@ OBJ = object()
 UPOOL = [None, 1, [1], [1]]            # small pool for the dispatch programs; the full equality pool is EQPOOL
 EQPOOL = [None, 1, True, 1.0, NAN, 'a', 'a'[:], [1], [1], [1.0], (1,), {'k': 1}, {'k': 1}, {'k': 2}, dt.date(2020, 1, 1),
           dt.datetime(2020, 1, 1), dt.date(2020, 1, 1), OBJ, {0, 8}, {8, 0}, [[1], {'k': (1, 2)}], [[1], {'k': (1, 2)}],
-          [[1], {'k': (1, 3)}], b'a', 0, 0.0, False, '', [], (), {}, {'a': None}, {'b': None}, [None], [0]]
+          [[1], {'k': (1, 3)}], b'a', 0, 0.0, False, '', [], (), {}, {'a': None}, {'b': None}, [None], [0],
+          {'a': 1, 'b': 2}, {'b': 1, 'a': 2}, {'b': 2, 'a': 1}, [{'a': 1, 'b': 2}], [{'b': 2, 'a': 1}]]
 NAMES = [('a',), ('b',), ('a', 'b'), ('u',), ('a', 'u'), ('e', 'a')]
 (SET_A, SET_B, SET_U, UNWATCH, TRIGGER_A, SET_SLOT, UPDATE, BATCH_ENTER, DISCARD_ENTER, UPDCTX_ENTER, EXIT, SET_E,
  TRIGGER_E, TRIGGER_AB) = range(14)
@@ -38,7 +39,7 @@ def _norm(v):
     return v          # values are compared by identity first, then by type and equality (models.dispatch._veq)
 
 
-def run(prefix, ops, wcfgs, allowed_ops, act, slot_w=False, dev_check=True, level=0):
+def run(prefix, ops, wcfgs, allowed_ops, act, slot_w=False, dev_check=True, level=0, selfun=False):
     """ops: list of (opcode, x) symbolic; wcfgs: list of (nidx, onlychanged, queued, precedence, kwmode) symbolic;
     act: bool, watcher 1 assigns b := a + 1 when it is told about a."""
     with untraced():
@@ -79,6 +80,8 @@ def run(prefix, ops, wcfgs, allowed_ops, act, slot_w=False, dev_check=True, leve
                 rec = tuple((e.name, e.what, _norm(e.old), _norm(e.new), e.type) for e in events)
                 names = [e.name for e in events]
             real.append((wid, rec, (p.a, p.b, _norm(p.u)), state['queued_running'] > 0))
+            if selfun and wid == 1 and wid in watchers:
+                p.param.unwatch(watchers.pop(wid))
             if has_action and 'a' in names:
                 if queued:
                     state['queued_running'] += 1
@@ -91,6 +94,9 @@ def run(prefix, ops, wcfgs, allowed_ops, act, slot_w=False, dev_check=True, leve
 
     def maction(m):
         m.set('b', m.values['a'] + 1)
+
+    def munwatch(m):
+        m.unwatch(1)
 
     for wi, (nidx, oc, qd, pr, kw) in enumerate(wcfgs):
         wid = wi + 1
@@ -110,7 +116,8 @@ def run(prefix, ops, wcfgs, allowed_ops, act, slot_w=False, dev_check=True, leve
         else:
             watchers[wid] = p.param.watch(fn, list(names), what=what, onlychanged=oc, queued=qd, precedence=pr)
         wreg = (lambda wid=wid, names=names, oc=oc, qd=qd, pr=pr, kw=kw, what=what, has_action=has_action:
-                (lambda m: m.watch(W(wid, names, oc, qd, pr, 'kwargs' if kw else 'args', what, maction if has_action else None))))()
+                (lambda m: m.watch(W(wid, names, oc, qd, pr, 'kwargs' if kw else 'args', what, maction if has_action else None,
+                                     pre=munwatch if (selfun and wid == 1) else None))))()
         oplog.append(wreg)
         for m in models.values():
             wreg(m)
